@@ -94,7 +94,8 @@ func (P *Program) verifyFunction(con *Contract) (res *FuncResult) {
 	oracles := map[int]string{}
 	var oracleRes []modelVar
 	func() {
-		defer func() { recover() }() // oracle construction is best effort
+		nh := g.noHoist
+		defer func() { recover(); g.noHoist = nh }() // oracle construction is best effort
 		var obs []Val
 		for i := 0; i < fn.Signature.Results().Len(); i++ {
 			rt := fn.Signature.Results().At(i).Type()
@@ -104,7 +105,8 @@ func (P *Program) verifyFunction(con *Contract) (res *FuncResult) {
 		}
 		for ei, en := range con.Ensures {
 			func() {
-				defer func() { recover() }()
+				nh := g.noHoist
+				defer func() { recover(); g.noHoist = nh }()
 				ctx := &specCtx{fr: fr, st: fr.entry, old: fr.entry, kind: ctxPost, pkg: con.Pkg, results: obs}
 				t := fr.evalBool(en.Expr, ctx)
 				oracles[ei] = strings.Join(g.lines, "\n") + "\n;;ORACLE-INPUTS\n(assert " + not(t) + ")\n"
@@ -298,6 +300,7 @@ func (P *Program) verifyLemma(l *Lemma) (res *FuncResult) {
 		ctx.bound[p.Name] = sv
 		g.params = append(g.params, modelVar{Name: p.Name, Term: n, T: sv.T})
 	}
+	g.paramEnd = len(g.lines)
 	t := fr.evalBool(l.Expr, ctx)
 	name := "lemma:" + l.Name
 	o := &Obligation{Name: l.Pkg + "#" + name, Kind: "lemma", Fn: key, Clause: l.Text, Mode: l.Mode.String(), Props: l.Props}
